@@ -170,15 +170,20 @@ def props_assumptions(pid):
     return theorems, ass
 
 
-def build_driver():
-    rc, out = sh("timeout 300 make -f Makefile.coq Extract.vo", cwd=COQ, timeout=330)
+def build_driver(engine=""):
+    """Extract<Engine>.v -> ocaml/gen/model<_engine>.ml -> ocaml/model_driver<_engine>.
+    The default engine ("") is the main development; other engines keep independently developed
+    sub-models (own Extract file, own driver) apart so that they never conflict."""
+    suf = ("_" + engine) if engine else ""
+    ext = "Extract%s.vo" % (engine.capitalize() if engine else "")
+    rc, out = sh("timeout 600 make -f Makefile.coq %s" % ext, cwd=COQ, timeout=630)
     if rc != 0:
-        raise BuildBroken("extraction", "Extract.v failed", out[-3000:])
-    gen = os.path.join(VERIF, "ocaml", "gen", "model.ml")
-    drv = os.path.join(VERIF, "ocaml", "model_driver")
-    srcs = [gen, os.path.join(VERIF, "ocaml", "driver.ml")]
+        raise BuildBroken("extraction", "%s failed" % ext, out[-3000:])
+    gen = os.path.join(VERIF, "ocaml", "gen", "model%s.ml" % suf)
+    drv = os.path.join(VERIF, "ocaml", "model_driver%s" % suf)
+    srcs = [gen, os.path.join(VERIF, "ocaml", "driver%s.ml" % suf)]
     if (not os.path.exists(drv)) or any(os.path.getmtime(s) > os.path.getmtime(drv) for s in srcs):
-        rc, out = sh(os.path.join(VERIF, "ocaml", "build.sh"), timeout=300)
+        rc, out = sh([os.path.join(VERIF, "ocaml", "build.sh"), suf], timeout=300)
         if rc != 0:
             raise BuildBroken("extraction", "ocaml build failed", out[-3000:])
     return drv
@@ -187,8 +192,8 @@ def build_driver():
 class Model:
     """Batch interface to the extracted model: send all lines, get all answers."""
 
-    def __init__(self):
-        self.path = os.path.join(VERIF, "ocaml", "model_driver")
+    def __init__(self, engine=""):
+        self.path = os.path.join(VERIF, "ocaml", "model_driver" + (("_" + engine) if engine else ""))
 
     def batch(self, lines, shards=None):
         lines = list(lines)
@@ -313,7 +318,7 @@ class Check:
             self.nontrivial.add(hashlib.sha1(repr(canon).encode()).hexdigest()[:16])
 
     # -- standard build pipeline: Tie A, lint, proofs, extraction
-    def build(self, stages=()):
+    def build(self, stages=(), engine=""):
         with Lock():
             try:
                 for l in run_pygen(stages):
@@ -338,9 +343,9 @@ class Check:
                 self.broken.append(b)
                 self.oblige("proofs:Props_%s" % self.pid, False, str(b))
             try:
-                build_driver()
+                build_driver(engine)
                 self.oblige("extraction+driver", True)
-                self.model = Model()
+                self.model = Model(engine)
             except BuildBroken as b:
                 self.broken.append(b)
                 self.oblige("extraction+driver", False, str(b))
